@@ -23,6 +23,21 @@ def make_case(rng):
     pool = {"sub": [0.0, 0.0, 0.125, 0.25, 0.375, 0.0625], "small": [0.0, 0.5, 1.25, 2.0, 3.5, 0.75, 6.0], "mixed": [0.0, 0.25, 5.5, 11.0, 14.5, 40.0],
             "int": [0.0, 1.0, 2.0, 5.0, 9.0], "big": [0.0, 3.5, 99.5, 100.0, 120.5, 250.0]}[style]
     c["state"] = [rng.choice(pool) for _ in range(n)]
+    if rng.random() < 0.2:
+        # totals on the edge: a species' amounts add up to an integer, or to 2^-33 below or above one (all dyadic: the sums are exact) -
+        # the number of molecules is the floor of the total, not the nearest integer
+        nc = sysgen.ncells(c["desc"])
+        for s_ in range(n // nc):
+            eps = rng.choice([-1.0, 0.0, 1.0]) * 2.0 ** -33
+            k = rng.choice([1, 1, 2, 3, 7])
+            row = [0.0] * nc
+            if nc >= 2 and rng.random() < 0.7:
+                i, j = rng.sample(range(nc), 2)
+                row[i], row[j] = k / 2.0, k / 2.0 + eps
+            else:
+                row[rng.randrange(nc)] = k + eps
+            c["state"][s_ * nc:(s_ + 1) * nc] = row
+        style = "edge_totals"
     c["state_units"] = list(c["units"])          # handed over in engine units: no conversion rounding
     c["init"] = rng.choice(["auto", "auto", "redist", "Poisson", "none"])
     c["style"] = style
